@@ -65,9 +65,17 @@ Centi(s) == CASE s = "+10" -> 1000 [] s = "-5" -> -500 [] s = "50%" -> 50 [] s =
               [] s = "10" -> 1000 [] s = "+20%" -> 20 [] s = "-10%" -> -10 [] s = "1" -> 100
               [] s = "-0.5" -> -50 [] OTHER -> 0
 CentiOf(f) == IF "centi" \in DOMAIN f THEN f.centi ELSE Centi(f.score)
+\* thousandths, for scores that are not a whole number of percent (0.125, '12.5%'); the documented rounding to two
+\* decimals happens ONCE, on the sum (Python's round: exact ties go to the even neighbour)
+Milli(s) == CASE s = "12.5%" -> 125 [] s = "0.125" -> 125 [] s = "+37.5%" -> 375 [] s = "-12.5%" -> -125 [] s = "0.625" -> 625
+              [] OTHER -> 10 * Centi(s)
+MilliOf(f) == IF "milli" \in DOMAIN f THEN f.milli ELSE IF "centi" \in DOMAIN f THEN 10 * f.centi ELSE Milli(f.score)
+RoundPos(m) == LET q == m \div 10  r == m % 10 IN
+               IF r < 5 THEN q ELSE IF r > 5 THEN q + 1 ELSE IF q % 2 = 0 THEN q ELSE q + 1
+RoundHE(m) == IF m >= 0 THEN RoundPos(m) ELSE -RoundPos(-m)
 Contribution(f, S) ==
     IF Suppressed(f, S) \/ f.unscored \/ f.score = "none" THEN 0
-    ELSE IF (f.valence # "neg") = f.trig THEN CentiOf(f) ELSE 0
+    ELSE IF (f.valence # "neg") = f.trig THEN MilliOf(f) ELSE 0
 RECURSIVE SumC(_, _, _)
 SumC(F, S, i) == IF i > Len(F) THEN 0 ELSE Contribution(F[i], S) + SumC(F, S, i + 1)
 
@@ -79,7 +87,7 @@ Best(F, S, i) == /\ i \in EligIdx(F, S)
 ShownIsBestP(F, S, r) == r.shown > 0 => Best(F, S, r.shown)
 DefaultIffNoneP(F, S, r) == (r.shown = 0) <=> (EligIdx(F, S) = {})
 CorrectIffP(F, S, r) == r.correct <=> \A i \in EligIdx(F, S) : F[i].correct = "T"
-ScoreIsP(F, S, r) == r.score = IF EligIdx(F, S) = {} THEN 100 ELSE SumC(F, S, 1)
+ScoreIsP(F, S, r) == r.score = IF EligIdx(F, S) = {} THEN 100 ELSE RoundHE(SumC(F, S, 1))
 
 (* ---------- IMPLEMENTATION-SHAPED layer (simple.resolve / FinalFeedback) ---------- *)
 \* by_priority: value + offset, scaled by 10
@@ -107,7 +115,7 @@ Merge(acc, F, S, i) ==
     IF Suppressed(f, S) THEN acc
     ELSE LET inv == (f.valence # "neg") = (~f.trig)
              acc1 == IF ~f.unscored /\ f.score # "none" /\ ~inv
-                     THEN [acc EXCEPT !.score = @ + CentiOf(f)] ELSE acc
+                     THEN [acc EXCEPT !.score = @ + MilliOf(f)] ELSE acc
          IN IF ~f.trig /\ f.els THEN acc1
             ELSE IF ~f.trig \/ f.muted THEN acc1
             ELSE IF f.kind = "Compliment" THEN acc1
@@ -119,21 +127,28 @@ Fold(acc, F, S, order, k) == IF k > Len(order) THEN acc
                              ELSE Fold(Merge(acc, F, S, order[k]), F, S, order, k + 1)
 ImplResolve(F, S) ==
     LET acc == Fold([shown |-> 0, correct |-> TRUE, score |-> 0], F, S, StableSort(F, Concat(F)), 1)
-    IN IF acc.shown = 0 THEN [shown |-> 0, correct |-> TRUE, score |-> 100] ELSE acc
+    IN IF acc.shown = 0 THEN [shown |-> 0, correct |-> TRUE, score |-> 100]
+       ELSE [acc EXCEPT !.score = RoundHE(@)]       \* combine_scores: round(total, 2)
 
 (* ---------- deliberately wrong variants used as binding self-tests (mutants) ---------- *)
 MutResolve(F, S) ==
     CASE Variant = "unstable_sort" ->   \* ties broken by last created
            LET acc == Fold([shown |-> 0, correct |-> TRUE, score |-> 0], F, S,
                            LET s == StableSort(F, Concat(F)) IN [k \in 1..Len(s) |-> s[Len(s) + 1 - k]], 1)
-           IN IF acc.shown = 0 THEN [shown |-> 0, correct |-> TRUE, score |-> 100] ELSE acc
+           IN IF acc.shown = 0 THEN [shown |-> 0, correct |-> TRUE, score |-> 100] ELSE [acc EXCEPT !.score = RoundHE(@)]
       [] Variant = "correct_or" ->
            LET r == ImplResolve(F, S) IN
            [r EXCEPT !.correct = IF r.shown = 0 THEN TRUE ELSE \E i \in EligIdx(F, S) : F[i].correct = "T"]
       [] Variant = "muted_unscored" ->
            LET r == ImplResolve(F, S) IN
            IF r.shown = 0 THEN r ELSE
-           [r EXCEPT !.score = SumC([i \in 1..Len(F) |-> IF F[i].muted THEN [F[i] EXCEPT !.score = "none"] ELSE F[i]], S, 1)]
+           [r EXCEPT !.score = RoundHE(SumC([i \in 1..Len(F) |-> IF F[i].muted THEN [F[i] EXCEPT !.score = "none"] ELSE F[i]], S, 1))]
+      [] Variant = "round_each" ->     \* every contribution rounded to a whole percent before summing
+           LET r == ImplResolve(F, S) IN
+           IF r.shown = 0 THEN r ELSE
+           [r EXCEPT !.score = LET RECURSIVE Each(_)
+                                   Each(i) == IF i > Len(F) THEN 0 ELSE RoundHE(Contribution(F[i], S)) + Each(i + 1)
+                               IN Each(1)]
       [] Variant = "blank_message_skipped" -> ImplResolve(F, S)   \* the deviation sits in Merge
       [] OTHER -> ImplResolve(F, S)
 
